@@ -8,11 +8,13 @@ import common  # noqa: E402
 
 
 def setup():
-    ok, log = common.coq_make(None, timeout=3000)
-    print(log[-3000:])
-    if not ok:
-        print('setup: coq build FAILED')
-        return 1
+    """Build everything that can be built now (so the checks start warm).  A file that does not compile is NOT a
+    setup failure: the check whose closure contains it fails its own proof stage and reports that."""
+    common.coq_makefile()
+    rc0, o, e = common.sh(f'timeout 3300 make -k -j{min(common.NCPU, 8)}', cwd=common.COQ, timeout=3400)
+    print((o + e)[-3000:])
+    if rc0 != 0:
+        print('setup: WARNING: some Coq files did not compile (see above); the affected checks will report it')
     rc = 0
     for name in sorted(os.listdir(os.path.dirname(os.path.abspath(__file__)))):
         if name.startswith('c') and name[1:3].isdigit() and name.endswith('.py'):
@@ -21,8 +23,7 @@ def setup():
                 try:
                     mod.setup()
                 except Exception as e:  # noqa: BLE001
-                    print(f'setup {name}: {e}')
-                    rc = 1
+                    print(f'setup {name}: WARNING {e!r}')
     print('setup done')
     return rc
 
